@@ -160,15 +160,38 @@ def run_harness(cases, workdir, profile='debug', timeout=600, tag='cases'):
 
 
 def run_model(cases, workdir, tag='cases', timeout=900):
-    path = os.path.join(workdir, f'{tag}-model.txt')
-    with open(path, 'w') as f:
-        for c in cases:
-            if not c.meta.get('no_model'):
+    """evaluates the extracted model on the cases; the case list is cut into shards that run as parallel processes
+    (the extracted arithmetic on inductive Z is slow, the cases are independent)"""
+    todo = [c for c in cases if not c.meta.get('no_model')]
+    weight = sum(len(c.text()) for c in todo)
+    nshards = max(1, min(16, len(todo) // 8, weight // 40000 + 1))
+    shards = [[] for _ in range(nshards)]
+    # round-robin by descending size keeps the shards balanced
+    for i, c in enumerate(sorted(todo, key=lambda c: -len(c.text()))):
+        shards[i % nshards].append(c)
+    procs = []
+    for k, sh in enumerate(shards):
+        path = os.path.join(workdir, f'{tag}-model.txt' if nshards == 1 else f'{tag}-model-{k}.txt')
+        with open(path, 'w') as f:
+            for c in sh:
                 f.write(c.text())
-    p = subprocess.run([os.path.join(BUILD, 'mxmodel'), path], stdout=subprocess.PIPE, stderr=subprocess.PIPE, timeout=timeout)
-    if p.returncode != 0:
-        raise RuntimeError('model driver failed: ' + p.stderr.decode()[-500:])
-    blocks, _ = split_blocks(p.stdout.decode())
+        out = open(path + '.out', 'wb')
+        procs.append((subprocess.Popen([os.path.join(BUILD, 'mxmodel'), path], stdout=out, stderr=subprocess.PIPE), out, path))
+    blocks = {}
+    t0 = time.time()
+    for pr, out, path in procs:
+        try:
+            _, err = pr.communicate(timeout=max(5, timeout - (time.time() - t0)))
+        except subprocess.TimeoutExpired:
+            for q, _, _ in procs:
+                q.kill()
+            raise RuntimeError('model driver timed out')
+        out.close()
+        if pr.returncode != 0:
+            raise RuntimeError('model driver failed: ' + err.decode()[-500:])
+        b, _ = split_blocks(open(path + '.out', encoding='utf-8', errors='replace').read())
+        blocks.update(b)
+        os.remove(path + '.out')
     return blocks
 
 
@@ -209,29 +232,43 @@ def mask_elems(s):
     return ''.join(out)
 
 
-_W24_UN = re.compile(r'\(U(\d+) a(-?\d+)\)')
+
+
+_CHAIN = re.compile(r'((?:\(U\d+ )+)a(-?\d+)')
+_CHAIN_F = re.compile(r'\(U(\d+) ')
+
+
+def chain_values(s, fn):
+    """evaluates every chain (U f1 (U f2 ... a<v>)) of closure applications on a plain value in one pass"""
+    if '(U' not in s:
+        return s
+    out, last = [], 0
+    for m in _CHAIN.finditer(s):
+        fs = [int(x) for x in _CHAIN_F.findall(m.group(1))]
+        v = int(m.group(2))
+        for f in reversed(fs):
+            v = fn(f, v)
+        out.append(s[last:m.start()])
+        out.append('a' + str(v))
+        last = m.end() + len(fs)          # the closing parentheses of the chain
+    out.append(s[last:])
+    return ''.join(out)
 
 
 def w24_values(s):
     """the 24-byte plain element type has no symbolic payload: closure f maps value v to v + 1000000*(f-9)"""
-    while True:
-        t = _W24_UN.sub(lambda m: 'a' + str(int(m.group(2)) + 1000000 * (int(m.group(1)) - 9)), s)
-        if t == s:
-            return s
-        s = t
+    return chain_values(s, lambda f, v: v + 1000000 * (f - 9))
 
 
-_B1_UN = re.compile(r'\(U(\d+) a(-?\d+)\)')
 _B1_ATOM = re.compile(r'\ba(-?\d+)\b')
+_B1_BIG = re.compile(r'\ba(-|\d{3,})')
 
 
 def b1_values(s):
     """the one-byte element type: atoms are reduced mod 256, closure f maps value v to (v + 37*(f-9)) mod 256"""
-    while True:
-        t = _B1_UN.sub(lambda m: 'a' + str((int(m.group(2)) + 37 * (int(m.group(1)) - 9)) % 256), s)
-        if t == s:
-            break
-        s = t
+    s = chain_values(s, lambda f, v: (v + 37 * (f - 9)) % 256)
+    if not _B1_BIG.search(s):
+        return s
     return _B1_ATOM.sub(lambda m: 'a' + str(int(m.group(1)) % 256), s)
 
 
